@@ -127,7 +127,7 @@ Section Hist.
     (match o with OValue _ _ => False | OForceChain _ _ true _ => False | OForceMulti _ _ true _ => False | _ => True end) ->
     step H wd run h o = (h', out) -> w_runlog (h_world h') = w_runlog (h_world h).
   Proof.
-    intros Hk Hs. destruct o as [b|bs|c n|c n d|c ns rc d|c n|cs ns rc d|ci ni|cf| |sl]; try contradiction; unfold step in Hs.
+    intros Hk Hs. destruct o as [b|bs|c n|c n d|c ns rc d|c n|cs ns rc d|ci ni|cf| |sl|cr nr]; try contradiction; unfold step in Hs.
     - destruct (build H wd b (w_objs (h_world h)) []) as [[[rc objs] reg]|e]; injection Hs as <- _; reflexivity.
     - destruct (build_multi H wd bs (w_objs (h_world h)) []) as [[[rcs objs] reg]|e]; injection Hs as <- _; reflexivity.
     - destruct (oid_of h c n); injection Hs as <- _; [apply force_obj_runlog|reflexivity].
@@ -160,6 +160,7 @@ Section Hist.
       injection Hs as <- _. simpl. specialize (G ch (h_world h) []). rewrite Ef in G. exact G.
     - injection Hs as <- _. reflexivity.
     - injection Hs as <- _. reflexivity.
+    - destruct (oid_of h cr nr); injection Hs as <- _; reflexivity.
   Qed.
 
   (* has_data: the only effect on the data directory is the creation of the task directory *)
@@ -173,6 +174,20 @@ Section Hist.
     destruct (cls_of (classes_of_world wd) ob) as [tc|]; [|injection Hs as <- _; exact Hp].
     destruct (persisting (c_data tc)); injection Hs as <- _; [|exact Hp]. simpl.
     destruct (os_mem (state_of (h_world h) id)); [exact Hp|]. now apply dget_mkdirs_go_existing.
+  Qed.
+  (* reset_data: the value held in memory is dropped, the forced mark and everything else stay *)
+  Theorem reset_keeps_forced h c n id h' out j :
+    oid_of h c n = Some id -> id < List.length (w_states (h_world h)) ->
+    step H wd run h (OReset c n) = (h', out) ->
+    out = ok VNone /\
+    w_store (h_world h') = w_store (h_world h) /\ w_runlog (h_world h') = w_runlog (h_world h) /\
+    state_of (h_world h') j =
+    (if Nat.eqb j id then {| os_mem := None; os_forced := os_forced (state_of (h_world h) id) |}
+     else state_of (h_world h) j).
+  Proof.
+    intros Ho Hl Hs. unfold step in Hs. rewrite Ho in Hs. injection Hs as <- <-. cbn [h_world].
+    repeat split. rewrite state_of_set_state.
+    apply Nat.ltb_lt in Hl. rewrite Hl, andb_true_r. reflexivity.
   Qed.
 End Hist.
 
@@ -235,7 +250,7 @@ Section HistSound.
     (forall c n v id, o = OValue c n -> oid_of h c n = Some id -> out = ok v -> Den run objs id v).
   Proof.
     pose proof I as nope_marker.
-    intros Hk Hi Hs. destruct o as [b|bs|c n|c n d|c ns rc d|c n|cs ns rc d|ci ni|cf| |sl]; try contradiction; unfold step in Hs.
+    intros Hk Hi Hs. destruct o as [b|bs|c n|c n d|c ns rc d|c n|cs ns rc d|ci ni|cf| |sl|cr nr]; try contradiction; unfold step in Hs.
     - (* value *)
       destruct (oid_of h c n) as [id|] eqn:Eo; [|injection Hs as <- <-; split; [exact Hi|nope]].
       destruct (eval (classes_of_world wd) run (depth h) (h_world h) id) as [w' [v|e]] eqn:Ee.
@@ -282,5 +297,8 @@ Section HistSound.
       match type of Hs with (let '(_, _) := ?F in _) = _ => destruct F as [w' out'] eqn:Ef end.
       injection Hs as <- <-. split; [|nope]. specialize (G ch (h_world h) [] Hi). rewrite Ef in G. exact G.
     - injection Hs as <- <-. split; [exact Hi|nope].
+    - destruct (oid_of h cr nr) as [id|]; injection Hs as <- <-; (split; [|nope]); [|exact Hi].
+      cbn [h_world]. destruct Hi as (Hm & Hst & Ho). repeat split; auto.
+      apply mem_sound_set; [exact Hm|simpl; discriminate].
   Qed.
 End HistSound.
